@@ -5,9 +5,11 @@ HERE = pathlib.Path(__file__).resolve().parent
 sys.path.insert(0, str(HERE.parent))
 from selftest.mutants import M  # noqa: E402
 PROPS = [f"C{i:02d}" for i in range(1, 21)]
+# variants that keep the property they are listed under but change the behaviour another property speaks about: not part of this bench
+OWN_PROPERTY_ONLY = {"s-c02-ww-width-running-max-causal": "a running maximum of the band width is still causal (C02) but it is another band (C20) and another feature axis (C03)"}
 muts = {}
 for m in M:
-    if m["expect"] == "silent":
+    if m["expect"] == "silent" and m["id"] not in OWN_PROPERTY_ONLY:
         muts.setdefault((m["file"], m["old"], m["new"], str(m.get("extra"))), m)  # the same edit is often listed under several properties
 
 
